@@ -174,7 +174,7 @@ def build_harness(features=()):
 
 def run_harness_family(fam, tier, seed, tag):
     """returns path of a 4-column tsv: request, impl, oracle, scope"""
-    path = os.path.join(BUILD, f"t_{tag}_{fam}.tsv")
+    path = os.path.join(BUILD, f"t_{tag}_{fam}_{tier}.tsv")
     with open(path, "w") as f:
         p = subprocess.run([KH, fam, tier, str(seed)], stdout=f, stderr=subprocess.PIPE, text=True, timeout=7200)
     if p.returncode != 0:
@@ -403,6 +403,7 @@ def main(argv):
             extra["anchors_changed"] = changed
             extra["generator_tier"] = gen_tier
             rtier = gen_tier
+            os.environ["KV_GEN_TIER"] = gen_tier
             ctx = {"tier": gen_tier, "seed": seed, "pid": pid, "only": only, "extra": extra}
             for kind, name in P["sources"]:
                 try:
